@@ -5,8 +5,8 @@ import obl_assembly as A
 def run(c):
     import clauses
     c.only_clauses = clauses.OWN["C08"]
-    if A.validate_assembly_concrete(c):
-        ct = A.conv_table_for([p for w in A.WRAPPERS_QUICK for p in w])
-        A.obl_suffix(c, ct, thorough=(c.tier == "thorough"), budget_s=2400)
+    A.validate_assembly_concrete(c)     # a mismatch makes the run inconclusive; the obligations still run, and what they find is reported only after native confirmation
+    ct = A.conv_table_for([p for w in A.WRAPPERS_QUICK for p in w])
+    A.obl_suffix(c, ct, thorough=(c.tier == "thorough"), budget_s=2400)
     c.assume("reference joining rules are silent when the base ends in / the suffix starts with a rare Sanskrit letter (spec/classes.py:RARE)")
     c.outside("'a dictionary word whose spelling matches the Avro pattern of the typed word': the regex engine over 159k words is an oracle")
